@@ -1,7 +1,7 @@
 #!/bin/sh
 # usage: tools/mutdiff.sh <prop> <diff>   -- apply a diff to a scratch worktree of /repo HEAD, run the check, remove the worktree
 D=$(mktemp -d /tmp/mutdiff.XXXXXX)
-git -C /repo worktree add --detach "$D/wt" HEAD -q || exit 9
-if ! git -C "$D/wt" apply "$2" 2>/dev/null && ! { git -C "$D/wt" apply --3way "$2" && git -C "$D/wt" reset -q; }; then echo "PATCH FAILED"; git -C /repo worktree remove --force "$D/wt"; rm -rf "$D"; exit 9; fi
-cd /verif && VERIF_REPO="$D/wt" ./check "$1" --tier ${3:-quick} | grep -E "VIOLATION|KNOWN|UNDECIDED|CHECKER|exit=" | cut -c1-330
-git -C /repo worktree remove --force "$D/wt"; rm -rf "$D"
+git -C /repo worktree add --detach "$D/wt$$" HEAD -q || exit 9
+if ! git -C "$D/wt$$" apply "$2" 2>/dev/null && ! { git -C "$D/wt$$" apply --3way "$2" && git -C "$D/wt$$" reset -q; }; then echo "PATCH FAILED"; git -C /repo worktree remove --force "$D/wt$$"; rm -rf "$D"; exit 9; fi
+cd /verif && VERIF_REPO="$D/wt$$" ./check "$1" --tier ${3:-quick} | grep -E "VIOLATION|KNOWN|UNDECIDED|CHECKER|exit=" | cut -c1-330
+git -C /repo worktree remove --force "$D/wt$$"; rm -rf "$D"
